@@ -242,12 +242,26 @@ def _run_sched_replay(rp: dict) -> dict:
     return isd.schedule_freshness(folder, Rng(0), len(rp["plan"]) - 1, 0, globals_fp=globals_fp, only=rp.get("only"), plan=rp["plan"])
 
 
+def _intkeys(o: Any) -> Any:
+    """JSON turned the integer keys of a scenario (action maps, ACL positions, port numbers) into strings: undo"""
+    if isinstance(o, dict):
+        return {(int(k) if isinstance(k, str) and k.lstrip("-").isdigit() else k): _intkeys(v) for k, v in o.items()}
+    if isinstance(o, list):
+        return [_intkeys(v) for v in o]
+    return o
+
+
 def replay(rec: dict) -> bool:
-    rp = rec["replay"]
+    rp = dict(rec["replay"])
+    for key in ("cfg", "cfg_a", "cfg_b"):
+        if isinstance(rp.get(key), dict):
+            rp[key] = _intkeys(rp[key])
     if rp.get("type") == "interleaving":
         _prepare_replay()
         r = _run_interleaving(rp)
-        return r["diff"] is None and r.get("own_globals") is None
+        if rp.get("channel") == "own-build-does-not-rewrite-globals":
+            return r.get("own_globals") is None
+        return r["diff"] is None
     if rp.get("type") == "schedule-freshness":
         _prepare_replay()
         return not _run_sched_replay(rp)["diffs"]
